@@ -610,7 +610,7 @@ def run(ctx):
     ctx.floor("ill-typed share (elementwise)", round(cl["ill-typed"] / tot, 3), 0.08)
     ctx.floor("ill-shaped share (elementwise)", round(cl["ill-shaped"] / tot, 3), 0.03)
     ctx.floor("reflected forms share (elementwise)", round(cl["reflected-form"] / tot, 3), 0.12)
-    ctx.floor("nested helper args", cl["nested-helper-arg"], 100)
+    ctx.floor("nested helper args", cl["nested-helper-arg"], 60)
 
 
 def replay(ctx, rep):
